@@ -11,16 +11,18 @@ From Pico Require Import ObjCache G_skeletons E6_cache.
 Import ListNotations.
 Local Open Scope string_scope.
 
-(* known finding (known_findings.json): apply_style_attributes takes a different code path when
-   the cache is populated; the analysis rejects exactly that method *)
-Definition excluded : list string := ["apply_style_attributes"].
+(* apply_style_attributes used to take a different code path when the cache was populated (the analysis
+   rejected exactly that method; fixed in c21f908): no method is excluded any more *)
+Definition excluded : list string := [].
 
 Theorem C15_table_ok :
   forallb (fun m => existsb (String.eqb (m_name m)) excluded || method_ok m) skeleton_table = true.
 Proof. vm_compute. reflexivity. Qed.
 
-Example C15_apply_style_attributes_refuted :
-  forallb (fun m => negb (String.eqb (m_name m) "apply_style_attributes") || negb (method_ok m)) skeleton_table = true.
+(* the analysis does reject the old shape of that method: edit the cache when it is held, flush, then mutate *)
+Example C15_cached_branch_refuted :
+  method_ok (mk_method "old_apply_style_attributes" Mutator true true
+               (IfHasCache (Populate (Edit 1 (Flush (Mut 2 (Done RetSelf))))) (Mut 2 (Done RetSelf)))) = false.
 Proof. vm_compute. reflexivity. Qed.
 
 (* topicosvg (which calls apply_style_attributes after a flush) is coherent *)
@@ -76,5 +78,5 @@ Example C15_nonvacuous :
         sk_round_floats ([1; 2], None))) = [2; 3].
 Proof. cbn. repeat split. Qed.
 
-Definition C15_all := (C15_table_ok, C15_apply_style_attributes_refuted, C15_operation_commutes_with_reparse, C15_history_coherent, C15_copy_leaves_receiver, C15_no_stale_cache).
+Definition C15_all := (C15_table_ok, C15_cached_branch_refuted, C15_operation_commutes_with_reparse, C15_history_coherent, C15_copy_leaves_receiver, C15_no_stale_cache).
 Print Assumptions C15_all.
